@@ -111,7 +111,7 @@ func ownOptions(fn *ssa.Function, optT types.Type) ssa.Value {
 			return
 		}
 		if c, ok := ex.Tuple.(*ssa.Call); ok {
-			if cf := staticCallee(c); cf != nil && cf.Name() == "next" && usedValue(ex) {
+			if cf := staticCallee(c); cf != nil && (cf.Name() == "next" || nextShaped(cf)) && usedValue(ex) {
 				cands = append(cands, ex)
 			}
 		}
@@ -254,4 +254,15 @@ func usedValue(v ssa.Value) bool {
 		}
 	}
 	return false
+}
+
+// nextShaped: a method of the path type with no parameters and three results
+// (element, options, rest) — Path.next under whatever name.
+func nextShaped(fn *ssa.Function) bool {
+	sig := fn.Signature
+	if sig.Recv() == nil || sig.Params().Len() != 0 || sig.Results().Len() != 3 {
+		return false
+	}
+	rn := typeName(sig.Recv().Type())
+	return rn == "Path" || rn == "path"
 }
